@@ -97,7 +97,9 @@ the `…_wfrom` / `…_wto` requests are answered by the wrapping forms of the c
 def normW (op : String) : String :=
   if op == "cv_wfrom" then "cv_wrapping_from" else if op == "cv_wto" then "cv_wrapping"
   else if op == "icv_wfrom" then "icv_wrapping_from" else if op == "icv_wto" then "icv_wrapping"
-  else if op == "fcv_wfrom" then "fcv_wrapping_from" else op
+  else if op == "fcv_wfrom" then "fcv_wrapping_from"
+  else if op == "fcv_to_saturating" || op == "fcv_to_wrapping" then "fcv_to"   -- a float destination cannot overflow: all forms are `to_num` (`traits.rs`, `impl FromFixed for f32/f64`)
+  else op
 
 def model (p : Profile) (L : Layout) (op : String) (a : List String) : Option String :=
   let op := normW op
